@@ -726,6 +726,7 @@ func runL2(args []string) {
 		// prepared statement with permuted samples, and concurrent runs
 		det := true
 		detail := ""
+		valuesStray := ""
 		{
 			a2 := append([]any{}, c.Args...)
 			for i := range a2 {
@@ -746,6 +747,10 @@ func runL2(args []string) {
 				r3 := runL2Interleaved(c, altArgs(cr, c.Args))
 				if r3.key() != res.key() {
 					det = false
+					if r3.sql == res.sql && fmt.Sprint(r3.params) != fmt.Sprint(res.params) {
+						// same SQL, other values behind the placeholders: also C03's subject
+						valuesStray = fmt.Sprintf("the arguments handed to the driver are not the values of the supplied arguments once another Query of the same Statement was built in between: %v vs %v", r3.params, res.params)
+					}
 					detail = fmt.Sprintf("a Query built before another Query of the same Statement ran with different SQL/arguments than alone: %v vs %v", r3.obs(), res.obs())
 				}
 			}
@@ -796,6 +801,9 @@ func runL2(args []string) {
 			holds[p] = getBool(resp, strings.ToLower(p))
 		}
 		holds["C16"] = det
+		if valuesStray != "" {
+			holds["C03"] = false
+		}
 		anyBad := false
 		for p, ok := range holds {
 			if !ok {
@@ -803,6 +811,9 @@ func runL2(args []string) {
 				d := "property predicate false on the implementation's observation"
 				if p == "C16" {
 					d = detail
+				}
+				if p == "C03" && valuesStray != "" {
+					d = valuesStray
 				}
 				rep.addHolds(p, Finding{Case: describeL2(c), Kind: "holds", Detail: d, Holds: holds, Impl: res.obs(), Model: resp["model"]})
 			}
